@@ -100,6 +100,14 @@ func conformantSSO(rng *rand.Rand) *ssoCase {
 		first := d.ACS[0]
 		d.ACS = append([]spsim.ACS{{Binding: spsim.BindArtifact, Location: first.Location, Index: "100"}}, d.ACS...)
 	}
+	if rng.Intn(5) == 0 {
+		// entries on bindings this IdP cannot answer, listed behind the others with the next indexes and without a
+		// default flag: the documented rule never picks them, they are somebody else's business
+		for k := 1 + rng.Intn(2); k > 0; k-- {
+			d.ACS = append(d.ACS, spsim.ACS{Binding: []string{spsim.BindArtifact, "urn:oasis:names:tc:SAML:2.0:bindings:PAOS"}[rng.Intn(2)],
+				Location: fmt.Sprintf("https://sp%d.example/other/%d", i, k), Index: fmt.Sprint(len(d.ACS))})
+		}
+	}
 	c.SPD = d
 	required := d.AuthnRequestsSigned == "true" || d.AuthnRequestsSigned == "1" || c.Want == "true" || c.Want == "1"
 	c.Signed = required || rng.Intn(2) == 0
@@ -158,6 +166,12 @@ func conformantSSO(rng *rand.Rand) *ssoCase {
 	}
 	if rng.Intn(5) == 0 {
 		a.IssuerFormat = "urn:oasis:names:tc:SAML:2.0:nameid-format:entity"
+	}
+	if rng.Intn(5) == 0 {
+		// the optional Subject in the shapes its type allows: an identifier, an identifier plus confirmations,
+		// confirmations only, an encrypted identifier
+		a.Subject = "user-" + plainString(rng, 5) + "@example.com"
+		a.SubjectKind = []string{"", "", "confirmation_only", "name_id_and_confirmation", "encrypted_id"}[rng.Intn(5)]
 	}
 	if rng.Intn(3) == 0 {
 		a.Conditions = true
